@@ -42,7 +42,7 @@ type Event struct {
 // Fault is one injected fault.
 type Fault struct {
 	Point string // "<op>:<node>#<ordinal>"
-	Kind  string // "error" or "cancel"
+	Kind  string // "error", "cancel" (the operation reports the cancellation) or "cancel-silent" (the context is cancelled, the operation still answers normally)
 	Hit   bool
 	Err   error
 }
@@ -144,11 +144,12 @@ func (m *Mon) at(ctx context.Context, op string, node int) error {
 	if hit == nil {
 		return nil
 	}
-	if hit.Kind == "cancel" {
+	if hit.Kind == "cancel" || hit.Kind == "cancel-silent" {
 		if cancel != nil {
 			cancel()
 		}
-		if strings.Contains(op, ".after") {
+		if strings.Contains(op, ".after") || hit.Kind == "cancel-silent" {
+			// the operation itself still answers normally
 			return nil
 		}
 		if err := ctx.Err(); err != nil {
